@@ -22,7 +22,7 @@ func DrawMuts(t *rapid.T, max int) []Mut {
 	n := rapid.IntRange(1, max).Draw(t, "nmut")
 	var out []Mut
 	for i := 0; i < n; i++ {
-		m := Mut{Kind: rapid.SampledFrom([]int{0, 0, 1, 1, 2, 3, 3, 3, 3, 4, 5, 6, 6, 6}).Draw(t, "mkind"), Pos: rapid.IntRange(0, 1<<20).Draw(t, "mpos")}
+		m := Mut{Kind: rapid.SampledFrom([]int{0, 0, 1, 1, 2, 3, 3, 3, 3, 4, 5, 6, 6, 6, 7, 7, 7}).Draw(t, "mkind"), Pos: rapid.IntRange(0, 1<<20).Draw(t, "mpos")}
 		switch m.Kind {
 		case 0:
 			m.Val = uint64(rapid.IntRange(0, 7).Draw(t, "bit"))
@@ -32,6 +32,8 @@ func DrawMuts(t *rapid.T, max int) []Mut {
 			} else {
 				m.Val = uint64(rapid.Byte().Draw(t, "b"))
 			}
+		case 7:
+			m.Val = uint64(rapid.IntRange(0, 1<<16).Draw(t, "redirTarget"))
 		case 4, 5:
 			m.Len = rapid.IntRange(1, 64).Draw(t, "mlen")
 			m.Val = uint64(rapid.IntRange(0, 1<<20).Draw(t, "msrc"))
@@ -48,16 +50,51 @@ func DrawMuts(t *rapid.T, max int) []Mut {
 	return out
 }
 
+// Redirect is a structure-aware edit: the position varint of an index entry or of an
+// object record is overwritten with the offset of another (or the same) block, keeping its
+// encoded length, so that everything else in the file stays decodable.
+type Redirect struct {
+	PosOff, PosLen int
+	Targets        []uint64 // block offsets that can be written with PosLen bytes
+}
+
+func putVarint(v uint64) []byte {
+	var dest [10]byte
+	i := 9
+	dest[i] = byte(v & 0x7f)
+	i--
+	for {
+		v >>= 7
+		if v == 0 {
+			break
+		}
+		v--
+		dest[i] = 0x80 | byte(v&0x7f)
+		i--
+	}
+	return dest[i+1:]
+}
+
 // Apply performs the edits on a copy of data. targets are offsets of
 // structurally interesting bytes (block headers, lengths, restart tables,
 // footer fields) in the unmutated file; other is a second valid table.
-func Apply(data []byte, other []byte, targets []int, muts []Mut, fixCRC bool, hdr int) []byte {
+func Apply(data []byte, other []byte, targets []int, muts []Mut, fixCRC bool, hdr int, redirects ...Redirect) []byte {
 	d := append([]byte{}, data...)
 	for _, m := range muts {
 		if len(d) == 0 {
 			break
 		}
 		switch m.Kind {
+		case 7:
+			if len(redirects) > 0 {
+				r := redirects[m.Pos%len(redirects)]
+				if len(r.Targets) > 0 && r.PosOff+r.PosLen <= len(d) {
+					enc := putVarint(r.Targets[int(m.Val%uint64(len(r.Targets)))])
+					if len(enc) == r.PosLen {
+						copy(d[r.PosOff:], enc)
+					}
+				}
+			}
 		case 0:
 			d[m.Pos%len(d)] ^= 1 << (m.Val & 7)
 		case 1:
